@@ -222,6 +222,8 @@ def run(chk):
         chk.violation('oracle', 'nn.%s of a module that receives sub-modules through its dataclass fields (declared in the order %s) differs from the plain module '
                       '(output, variable tree of init, or mutable updates)' % (c['form'], c['names']), {'case': c, 'lifted': o['impl'], 'plain': o['ref']})
   chk.notes['field_modules'] = {'cases': len(fcases)}
+  import c05_ctl
+  c05_ctl.run_ctl(chk)
   chk.notes['stats'] = stat
   chk.cov['rule'] = ('random compact module programs (C01 generator) in which 60% of the sub-modules are created from nn.jit / nn.remat / nn.map_variables(identity) classes (explicit and automatic '
                      'names) and nn.cond / nn.switch / nn.while_loop statements act on variables declared before; init then 1-3 applies on the same Module instance with changing `mutable` '
